@@ -1038,3 +1038,23 @@ Proof.
   pose proof (ftp_loop_one_deadline fuel v6 dial ftp_init (bwrite (new_reader c) 0) eq_refl) as H.
   destruct (ftp_loop fuel v6 dial ftp_init (bwrite (new_reader c) 0)) as [[o s] b]; cbn [snd h_conn] in *. exact H.
 Qed.
+
+(* ------------------------------------------------------------------ *)
+(* vnc update-request queue *)
+
+Lemma serve_queue_fixed_never_blocks sched reqs q p : serve_queue true sched reqs q p <> QBlocked.
+Proof.
+  revert sched q p; induction reqs as [|r IH]; intros sched q p; cbn [serve_queue]; [congruence|].
+  destruct (_ <? VNC_QCAP)%nat; [apply IH|].
+  destruct p; [destruct (pa_die _)|]; try apply IH; congruence.
+Qed.
+
+(* at HEAD: once the pusher is gone, more buffered requests than free slots block serve() *)
+Lemma serve_queue_head_blocks sched reqs q :
+  (q <= VNC_QCAP)%nat -> (VNC_QCAP - q < reqs)%nat -> serve_queue false sched reqs q PGone = QBlocked.
+Proof.
+  revert sched q; induction reqs as [|r IH]; intros sched q Hq Hr; [lia|]. cbn [serve_queue].
+  destruct (q <? VNC_QCAP)%nat eqn:E.
+  - apply Nat.ltb_lt in E. apply IH; lia.
+  - reflexivity.
+Qed.
